@@ -290,8 +290,6 @@ def splice_function(u, spec, mode, canary=False, variants=(), rename=None):
         req = list(spec.requires)
         ens = list(spec.ensures)
         for v in variants:
-            if v not in spec.var_requires and v not in spec.var_ensures:
-                raise ValueError("%s: unknown variant %s" % (spec.key, v))
             req += spec.var_requires.get(v, [])
             ens += spec.var_ensures.get(v, [])
         contract += clause_block("requires", req)
